@@ -330,11 +330,25 @@ def sym_abs(x):
     return abs(x)
 
 
+class SymFloatType(float):
+    """what `float` resolves to in instrumented modules: float(x) on a proxy stays symbolic; as a type
+    (np.finfo(float), dtype=float, isinstance) it behaves as float"""
+    def __new__(cls, x=0.0):
+        return sym_float(x)
+
+
+class SymIntType(int):
+    def __new__(cls, x=0, *a):
+        return sym_int(x, *a)
+
+
 def _unshadow(c):
-    if c is sym_int:
+    if c is sym_int or c is SymIntType:
         return int
-    if c is sym_float:
+    if c is sym_float or c is SymFloatType:
         return float
+    if getattr(c, '__name__', '') == 'SymStrType':
+        return str
     if getattr(c, '__name__', '') == 'sym_str':
         return str
     return c
